@@ -260,6 +260,9 @@ def store_field(ex, st, obj, name, tnode, v):
         return
     if isinstance(v, ObjRef):
         k = class_kind(ct.name) if ct.kind == 'class' else 'ptr'
+        if k == 'map':
+            models.copy_scale_table(ex, st, path, v.name)
+            return
         if k == 'queue':
             hp = v.name + '.head'
             if hp in st.scal:
